@@ -140,7 +140,7 @@ Accept(pre, m) ==
 ----------------------------------------------------------------------------
 ClauseIds == {
  "C01.sell", "C01.pay", "C01.vest", "C01.other_denoms",
- "C02.zero_sum", "C02.user_delta", "C02.block_no_debit", "C02.dues", "C02.pool",
+ "C02.zero_sum", "C02.user_delta", "C02.block_no_debit", "C02.dues", "C02.pool", "C02.refund",
  "C03.alloc", "C03.nothing_sold",
  "C04.lower", "C04.upper", "C04.own_price", "C04.loser_refund", "C04.fixed_sell", "C04.fixed_pay",
  "C05.supply", "C05.cap_batch", "C05.asked", "C05.cap_fixed",
@@ -155,12 +155,12 @@ ClauseIds == {
  "C15.validate", "C15.roundtrip",
  "C16.flags", "C16.bidder_level", "C16.price", "C16.released",
  "C18.accept", "C18.unchanged",
- "C19.frame", "C19.not_due", "C19.terms", "C19.bid_terms", "C19.ids",
+ "C19.frame", "C19.not_due", "C19.terms", "C19.bid_terms", "C19.ids", "C19.independence",
  "C17.once", "C17.args", "C17.before", "C17.veto" }
 
 ByProp == [
   C01 |-> {"C01.sell", "C01.pay", "C01.vest", "C01.other_denoms"},
-  C02 |-> {"C02.zero_sum", "C02.user_delta", "C02.block_no_debit", "C02.dues", "C02.pool"},
+  C02 |-> {"C02.zero_sum", "C02.user_delta", "C02.block_no_debit", "C02.dues", "C02.pool", "C02.refund"},
   C03 |-> {"C03.alloc", "C03.nothing_sold"},
   C04 |-> {"C04.lower", "C04.upper", "C04.own_price", "C04.loser_refund", "C04.fixed_sell", "C04.fixed_pay"},
   C05 |-> {"C05.supply", "C05.cap_batch", "C05.asked", "C05.cap_fixed"},
@@ -176,7 +176,7 @@ ByProp == [
   C16 |-> {"C16.flags", "C16.bidder_level", "C16.price", "C16.released"},
   C17 |-> {"C17.once", "C17.args", "C17.before", "C17.veto"},
   C18 |-> {"C18.accept", "C18.unchanged"},
-  C19 |-> {"C19.frame", "C19.not_due", "C19.terms", "C19.bid_terms", "C19.ids"} ]
+  C19 |-> {"C19.frame", "C19.not_due", "C19.terms", "C19.bid_terms", "C19.ids", "C19.independence"} ]
 
 Holds(c, step, g, g2) ==
   LET pre  == step.pre
@@ -193,7 +193,7 @@ Holds(c, step, g, g2) ==
       SoldI(i) == Sold(pre.bids[i], pre.allowed[i], pre.auctions[i].sellAmt)
       Got(i, u) == Flow(xs, SellAcc(i - 1), u, pre.auctions[i].sellDenom)
       Back(i, u) == Flow(xs, PayAcc(i - 1), u, pre.auctions[i].payDenom)
-      Res(i, u) == ReservedBy(pre.bids[i], u, pre.auctions[i].payDenom)
+      Res(i, u) == g2.inPay[i][u]      \* what the bidder actually paid into the paying escrow (observed)
       Bidders(i) == Users \ {pre.auctions[i].auctioneer}
       SettledB(i) == Settled(step, i) /\ pre.auctions[i].type = "B"
       SettledF(i) == Settled(step, i) /\ pre.auctions[i].type = "F"
@@ -269,6 +269,11 @@ Holds(c, step, g, g2) ==
           /\ Bal(post, SellAcc(a.id), a.sellDenom) = g2.don[SellAcc(a.id)][a.sellDenom]
           /\ Bal(post, PayAcc(a.id), a.payDenom) = g2.don[PayAcc(a.id)][a.payDenom]
           /\ Bal(post, VestAcc(a.id), a.payDenom) = g2.don[VestAcc(a.id)][a.payDenom]
+  [] c = "C02.refund" -> \A i \in 1..nPre : SettledB(i) =>
+        \A u \in Bidders(i) :
+          /\ Got(i, u) = 0 => Back(i, u) = Res(i, u)
+          /\ Got(i, u) > 0 => /\ (Res(i, u) - Back(i, u)) * D >= CP(i) * Got(i, u)
+                              /\ (Res(i, u) - Back(i, u)) * D < CP(i) * Got(i, u) + NBidsAtOrAbove(pre.bids[i], u, CP(i)) * D
   (* ---------------- C03 clearing price ---------------- *)
   [] c = "C03.alloc" -> \A i \in 1..nPre : (SettledB(i) /\ SoldI(i)) =>
         \A u \in Bidders(i) : Got(i, u) = DemandU(pre.bids[i], pre.allowed[i], u, CP(i))
@@ -480,6 +485,10 @@ Holds(c, step, g, g2) ==
   [] c = "C19.terms" -> \A j \in 1..nPre : Sig(post.auctions[j]) = Sig(pre.auctions[j])
   [] c = "C19.bid_terms" -> \A j \in 1..nPre : \A k \in 1..Len(pre.bids[j]) :
         k <= Len(post.bids[j]) /\ BidSig(post.bids[j][k]) = BidSig(pre.bids[j][k])
+  [] c = "C19.independence" -> (m.a \in {"Bid", "Modify"} /\ tgt > 0) =>
+        LET alone == [pre EXCEPT !.bids = [j \in 1..nPre |-> IF j = tgt THEN pre.bids[j] ELSE <<>>],
+                                 !.allowed = [j \in 1..nPre |-> IF j = tgt THEN pre.allowed[j] ELSE ZeroU]]
+        IN ok <=> (Accept(alone, m) /\ ~Vetoed(pre, m))
   [] c = "C19.ids" ->
         /\ nPost >= nPre
         /\ \A j \in (nPre + 1)..nPost : \A k \in 1..nPre : post.auctions[j].id > pre.auctions[k].id
